@@ -29,7 +29,7 @@ META = {
                "one operation per path from an arbitrary valid state (inductive step)",
                "three-step histories read-views / write / read-views / write / read-views, width <= 12 "
                "(thorough 40): hidden state such as cached views is covered",
-               "two live frames of independent symbolic widths <= 6 (thorough 16): the same kind of write on "
+               "two live frames of independent symbolic widths <= 6 (thorough 9): the same kind of write on "
                "each, views, concatenation - nothing learnt from one frame may be applied to the other",
                "`f += g` with another reference to f alive (the object keeps its length)",
                "equality across Frame / ForwardFrame / BackwardFrame / BackwardFrameError of eight bits",
@@ -555,7 +555,7 @@ def cases(tier):
     Bh = 12 if tier == "quick" else 40
     for op in ("setbit", "setslice", "rejected"):
         cs.append(Case("history-" + op, h_history, {"B": Bh, "op": op}, width=128))
-    Bt = 6 if tier == "quick" else 16
+    Bt = 6 if tier == "quick" else 9
     for op in ("setslice", "setbit"):
         cs.append(Case("two-" + op, h_two, {"B": Bt, "op": op}, width=128))
     for n in ([1, 3] if tier == "quick" else [1, 2, 3, 4, 8, 9]):
